@@ -5,6 +5,7 @@ import TemporalModel.Model.CalGlue
 import TemporalModel.Model.Format
 import TemporalModel.Spec.CalLaws
 import TemporalModel.Spec.Grammar
+import TemporalModel.Spec.GrammarOps
 namespace Driver
 open TemporalModel Cal
 
@@ -77,8 +78,8 @@ def fields? (ss : List String) : Option CalFields :=
 
 /-- `Calendar::from_str`: a date-time string's calendar annotation, else the text itself as an identifier. -/
 def calFromStr (cs : List Char) : Out CalId :=
-  match Gram.dateTime cs with
-  | some r => (match r.calendar with | none => .ok .iso8601 | some v => calFromId v)
+  match Gram.calendarOfString cs with
+  | some c => (match c with | none => .ok .iso8601 | some v => calFromId v)
   | none => calFromId cs
 
 def handleCal (toks : List String) : Option String :=
